@@ -176,7 +176,7 @@ func C14_Opcodes() {
 		nb := c - 10
 		for i := 0; i < nb; i++ {
 			a.op(refbcl.OpDEFBLOCK).uv(0).uv(1)
-			a.op(refbcl.OpCONST).uv(3+i).op(refbcl.OpSETFIELD).uv(2).op(refbcl.OpPOP).op(refbcl.OpENDBLOCK)
+			a.op(refbcl.OpCONST).uv(3 + i).op(refbcl.OpSETFIELD).uv(2).op(refbcl.OpPOP).op(refbcl.OpENDBLOCK)
 		}
 		a.op(refbcl.OpDEFBLOCK).uv(6).uv(1).op(refbcl.OpENDBLOCK)
 		opt := verif.Byte("bindopt")
